@@ -26,21 +26,43 @@ from .core import VERIF_ROOT, AnalysisError, Index, Result, load_known
 DIGEST_FILE = os.path.join(VERIF_ROOT, "bptkverif", "variants_digest.txt")
 
 
-def apply_unified_diff(repo: str, difftext: str) -> Optional[Dict[str, str]]:
-    """Apply a git unified diff to the files under *repo* in memory; None if a hunk does not match."""
+def apply_unified_diff(repo: str, difftext: str, base: Optional[Dict[str, str]] = None) -> Optional[Dict[str, str]]:
+    """Apply a git unified diff to the files under *repo* in memory; None if a hunk does not match.
+    *base*: an overlay the diff is applied on top of (two changes composed)."""
     import re
-    overlay: Dict[str, str] = {}
+    overlay: Dict[str, str] = dict(base or {})
     files = re.split(r"^diff --git .*$", difftext, flags=re.M)[1:]
+    for block in files:
+        rf = re.search(r"^rename from (.+)$", block, flags=re.M)
+        rt = re.search(r"^rename to (.+)$", block, flags=re.M)
+        if rf and rt and not re.search(r"^\+\+\+ ", block, flags=re.M):
+            src_rel, dst_rel = rf.group(1).strip(), rt.group(1).strip()
+            text = overlay.get(src_rel)
+            if text is None:
+                with open(os.path.join(repo, src_rel), encoding="utf-8") as fh:
+                    text = fh.read()
+            overlay[dst_rel] = text
+            overlay[src_rel] = None
     for block in files:
         m = re.search(r"^\+\+\+ b/(.+)$", block, flags=re.M)
         if not m:
+            # a file the change removes (or renames away): +++ /dev/null, or a pure rename header
+            d = re.search(r"^--- a/(.+)$", block, flags=re.M)
+            if d and re.search(r"^\+\+\+ /dev/null$", block, flags=re.M):
+                overlay[d.group(1).strip()] = None
             continue
         rel = m.group(1).strip()
+        srcm = re.search(r"^--- a/(.+)$", block, flags=re.M)
+        src_rel = srcm.group(1).strip() if srcm else rel
         if re.search(r"^--- /dev/null$", block, flags=re.M):
             lines = []                                   # a file the change adds
+        elif overlay.get(src_rel) is not None:
+            lines = overlay[src_rel].split("\n")
         else:
-            with open(os.path.join(repo, rel), encoding="utf-8") as fh:
+            with open(os.path.join(repo, src_rel), encoding="utf-8") as fh:
                 lines = fh.read().split("\n")
+        if src_rel != rel:
+            overlay[src_rel] = None                      # renamed and edited
         out: List[str] = []
         pos = 0
         hunks = re.split(r"^(@@ -\d+(?:,\d+)? \+\d+(?:,\d+)? @@.*)$", block, flags=re.M)[1:]
@@ -88,11 +110,27 @@ def apply_unified_diff(repo: str, difftext: str) -> Optional[Dict[str, str]]:
 
 def _apply(repo: str, v: dict) -> Optional[Dict[str, str]]:
     if "diff" in v:
+        base = None
+        if "base_diff" in v:                  # a defect change on top of a behaviour-preserving change
+            with open(v["base_diff"], encoding="utf-8") as fh:
+                base = apply_unified_diff(repo, fh.read())
+            if base is None:
+                return None
         with open(v["diff"], encoding="utf-8") as fh:
-            ov = apply_unified_diff(repo, fh.read())
+            ov = apply_unified_diff(repo, fh.read(), base)
         if ov is None:
             return None
+        if base is not None:
+            for rel, text in ov.items():
+                if text is None:
+                    continue
+                try:
+                    compile(text, rel, "exec", dont_inherit=True)
+                except SyntaxError:
+                    return None           # the two changes do not compose into a program: not a variant
         for rel, text in ov.items():
+            if text is None:
+                continue
             try:
                 compile(text, rel, "exec", dont_inherit=True)
             except SyntaxError as e:
@@ -163,6 +201,13 @@ def run_selftest(prop: str, repo: str, res: Result) -> None:
                 meta = json.load(open(meta_path))
                 if meta.get("kept") and meta.get("property") == prop:
                     variants.append(dict(prop=prop, kind="F", name="seeded:" + name, diff=dp, expect=None))
+                    # ... and the same defect in a tree that was also cleaned up (renames, moves, collaborators): the view must not hide it
+                    for rn in ("T1", "T2", "T3", "T4"):
+                        bp = os.path.join(VERIF_ROOT, "refactors", "%s_%s" % (prop, rn), "patch.diff")
+                        bm = os.path.join(VERIF_ROOT, "refactors", "%s_%s" % (prop, rn), "meta.json")
+                        if os.path.exists(bp) and os.path.exists(bm) and json.load(open(bm)).get("kept"):
+                            variants.append(dict(prop=prop, kind="F", name="seeded:%s+refactor:%s_%s" % (name, prop, rn), diff=dp, base_diff=bp,
+                                                 expect=None, optional=True))
     # behaviour-preserving changes kept under /verif/refactors are must-stay-silent variants of *every* property
     rdir = os.path.join(VERIF_ROOT, "refactors")
     if os.path.isdir(rdir):
@@ -196,6 +241,8 @@ def run_selftest(prop: str, repo: str, res: Result) -> None:
     for v, (name, status, new, err) in zip(variants, outs):
         if status == "skipped":
             skipped += 1
+            if v.get("optional"):
+                continue                  # the two changes touch the same lines: nothing to compose
             if strict:
                 problems.append("variant %s: anchor text not found on the tree the variants were written for" % name)
             else:
